@@ -38,6 +38,17 @@ CLAIMED = {
              'raising single-element mutator leaves the state equal (extensional maps: equal lookups). Lane: error-directed '
              'histories, full snapshot before/after every raising call.',
         note=_COMMON_NOTE),
+    'C10': dict(
+        technique='Lean 4 proof (each query characterised against the transitive closure / simple paths / induced sub-graphs '
+                  'for every DAG) with differential correspondence against networkx-backed answers, exhaustive on small DAGs',
+        text='Theorems for every acyclic edge list: ancestors/descendants/is_ancestor/common_* iff transitive closure; '
+             'all causal paths = all simple directed paths, no duplicates; the code\'s own memoised nodes-between recursion '
+             'terminates and equals {n | s reaches n reaches t}; directed_path_exists (fuel = |nodes|) iff a directed path; '
+             'sub-graphs are the induced ones; cross-consistency, order- and renaming-invariance; all linear extensions. '
+             'Lane: all labelled DAGs <= 4 (quick) / <= 5 (thorough) nodes, all nodes and pairs, mixed graphs on 3 nodes, '
+             'relabelings, shuffled construction.',
+        note=_COMMON_NOTE + 'networkx ancestors/descendants/all_simple_paths/topological sorts are assumed to agree with the '
+                            'definitional model; measured exhaustively on the small universes.'),
     'C12': dict(
         technique='Lean 4 proof (regex executed by hand in priority order: parse/format round trip for all names and lags) with '
                   'differential correspondence against re and the graph lookups',
@@ -49,7 +60,7 @@ CLAIMED = {
 }
 
 _P = 'check under construction in this round (model/lane/theorems not yet integrated); not claimed until its central theorem is proved and its lane is clean'
-NOT_CLAIMED = {k: _P for k in ['C04', 'C05', 'C06', 'C07', 'C08', 'C09', 'C10', 'C11', 'C13', 'C14', 'C15', 'C16', 'C17', 'C18',
+NOT_CLAIMED = {k: _P for k in ['C04', 'C05', 'C06', 'C07', 'C08', 'C09', 'C11', 'C13', 'C14', 'C15', 'C16', 'C17', 'C18',
                                'C19', 'C20']}
 
 try:
